@@ -10,7 +10,7 @@ from .model import (
     sum_gradient,
     sum_hessian,
 )
-from .opt_int import build_amp, sum_gradient_data2
+from .opt_int import _cache_id, build_amp, sum_gradient_data2
 
 set_function, get_function, register_function = create_config()
 
@@ -224,8 +224,8 @@ class Model_cfit_cached(Model_cfit):
 
     def nll_grad_batch(self, data, mcdata, weight, mc_weight):
         var = self.vm.trainable_variables
-        data_id = id(data)
-        mc_id = id(mcdata)
+        data_id = _cache_id(self, data)
+        mc_id = _cache_id(self, mcdata)
         mcdata = list(mcdata)
         mc_weight = list(mc_weight)
 
